@@ -68,7 +68,7 @@ def instances(tier, seed):
                 out.append({"name": "hist-thr%s-%s-first%02d-%s" % (thr, "sig" if sig else "nosig", first, "%s:%s" % STEPS[first]),
                             "fn": "history", "timeout": T, "cost": 2,
                             "params": {"thr": thr, "sig": sig, "first": first, "L": L, "seed": seed,
-                                       "limit": 250 if tier == "quick" else 30000}})
+                                       "limit": (900 if (thr == "default" and not sig) else 250) if tier == "quick" else 30000}})
     return out
 
 
@@ -184,6 +184,11 @@ def run_history(steps, thr, sig):
                     got[src].append(it)
                     if src == "sched" and it.when > m.clock + 1e-9:
                         problems.append("scheduled event returned %.3f s before its time" % (it.when - m.clock))
+                    if src == "sched":
+                        # time order among the scheduled events that are pending at this moment
+                        pend = [e for e in fired["sched"] if not any(e is g for g in got["sched"])]
+                        if any(e.when < it.when - 1e-9 for e in pend):
+                            problems.append("scheduled event returned while one with an earlier time was pending")
                 else:
                     problems.append("unexpected item %r" % (it,))
 
@@ -283,10 +288,11 @@ def run_history(steps, thr, sig):
         if bytes(returned) != bytes(arrived):
             problems.append("bytes returned %r... != bytes arrived %r... (lengths %d / %d)" % (bytes(returned[:24]), bytes(arrived[:24]), len(returned), len(arrived)))
         for src in fired:
-            if [id(x) for x in got[src]] != [id(x) for x in (fired[src] if src != "sched" else sorted(fired[src], key=lambda e: e.when))]:
-                if src == "sched" and sorted(id(x) for x in got[src]) == sorted(id(x) for x in fired[src]) and \
-                        [e.when for e in got[src]] == sorted(e.when for e in fired[src]):
-                    continue          # equal times: either order is time order
+            if src == "sched":
+                # exactly once each (time order was checked when each one was returned)
+                if sorted(id(x) for x in got[src]) != sorted(id(x) for x in fired[src]):
+                    problems.append("events of source 'sched': returned %r, fired %r" % (got[src], fired[src]))
+            elif [id(x) for x in got[src]] != [id(x) for x in fired[src]]:
                 problems.append("events of source %r: returned %r, fired %r" % (src, got[src], fired[src]))
         if sig and sigints_got[0] != sigints_sent[0]:
             problems.append("SIGINTs: %d sent, %d returned" % (sigints_sent[0], sigints_got[0]))
@@ -415,11 +421,10 @@ def real_history(steps, thr, sig):
         if bytes(returned) != bytes(arrived):
             problems.append("bytes returned %r... != bytes arrived %r... (lengths %d / %d)" % (bytes(returned[:24]), bytes(arrived[:24]), len(returned), len(arrived)))
         for src in fired:
-            want = fired[src] if src != "sched" else sorted(fired[src], key=lambda e: e.when)
-            if [id(x) for x in got[src]] != [id(x) for x in want]:
-                if src == "sched" and sorted(id(x) for x in got[src]) == sorted(id(x) for x in fired[src]):
-                    if [e.when for e in got[src]] == sorted(e.when for e in fired[src]):
-                        continue
+            if src == "sched":
+                if sorted(id(x) for x in got[src]) != sorted(id(x) for x in fired[src]):
+                    problems.append("events of source 'sched': returned %r, fired %r" % (got[src], fired[src]))
+            elif [id(x) for x in got[src]] != [id(x) for x in fired[src]]:
                 problems.append("events of source %r: returned %r, fired %r" % (src, got[src], fired[src]))
         return "; ".join(problems[:3]) if problems else None
     except Exception as ex:
